@@ -158,6 +158,9 @@ def generate(seed: int, tier: str) -> Dict[str, Any]:
     fate = r.weighted([("intact", 4), ("never_written", 1), ("removed", 2), ("truncated", 1), ("garbled", 1), ("killed", 2)])
     return {"base": base, "edits": edits, "cur_version": "8", "fate": fate, "cut": r.randint(0, 200), "kill_at": r.randint(0, 30),
             "full_sibling": r.chance(0.4), "damage_before_write": r.chance(0.5), "sibling_fate": r.choice([None, None, "truncated", "garbled"]), "in_place": r.chance(0.4),
+            # the file being read is itself torn (power loss while it was written by something else than the atomic writer,
+            # a partial copy): after its header line, just before, or in the middle of the body
+            "target_torn": r.choice([None] * 8 + ["header", "header_nl", "mid"]),
             # every codec the writer accepts; zstandard is not installed here, where the writer documents a fall-back to "none"
             "compression": r.choice(["none", "none", "none", "zstd"])}
 
@@ -286,6 +289,15 @@ def execute(p: Dict[str, Any]) -> Dict[str, Any]:
                         open(bp, "wb").write(b"\x00\xff{not json" + bytes(range(20)))
                     stats["baseline_damaged"] = 1
                 intact = fate in ("intact", "never_written", "killed") or not wrote_delta
+                if p.get("target_torn") and not p.get("full_sibling"):
+                    tdata = open(cur_path, "rb").read()
+                    head = len(tdata.split(b"\n")[0])
+                    tcut = {"header": head, "header_nl": head + 1, "mid": head + 1 + (len(tdata) - head - 1) // 2}[p["target_torn"]]
+                    if tcut < len(tdata):
+                        open(cur_path, "wb").write(tdata[:tcut])
+                        stats["target_torn"] = 1
+                        intact = False
+                        fate = "target-torn-" + p["target_torn"]
                 readers = {
                     "by-path": lambda: read_snapshot(path=cur_path),
                     "by-etag": lambda: read_snapshot(root=d, etag_to="8"),
